@@ -45,6 +45,10 @@ def case_strategy(draw):
     }
 
 
+def prepare(tier):
+    lib.install_assd_snap()
+
+
 def searches(tier):
     return [("pairs", case_strategy(), BUDGET[tier])]
 
